@@ -11,7 +11,7 @@ import json, os, shutil, subprocess, sys, time, glob
 
 REPO = "/repo"
 VERIF = "/verif"
-SCR = "/tmp/verif-seeded"
+SCR = os.environ.get("VERIF_SEEDED_SCR", "/tmp/verif-seeded")
 
 
 def sh(cmd, cwd=None, env=None, timeout=1800):
@@ -128,12 +128,17 @@ def verify(name, meta):
     shutil.rmtree(tree, ignore_errors=True)
 
 
+SHARD = tuple(int(x) for x in os.environ["VERIF_SHARD"].split("/")) if os.environ.get("VERIF_SHARD") else None  # "i/n": only names with sum(bytes) % n == i
+
+
 def recheck(sel, tier="quick", allprops=False):
     vdir = verif_copy()
     for d in sorted(glob.glob(os.path.join(VERIF, "seeded", "*", "meta.json"))):
         meta = json.load(open(d))
         name = meta["name"]
         if sel and not any(s in name for s in sel):
+            continue
+        if SHARD and (sum(map(ord, name)) % SHARD[1]) != SHARD[0]:
             continue
         dst = os.path.dirname(d)
         tree = fresh_tree(name)
